@@ -378,6 +378,8 @@ class Scaling(Interp):
                     return SV("det", m, axes=a.axes) if m is not None else unk("power")
                 if a.kind == "sigabs" and abs(q - 2) < 1e-12:
                     return SV("sigpow", a.m.pow(2), src=a.src, axes=a.axes)
+                if a.kind == "sig" and abs(q - 2) < 1e-12 and a.tag == "asreal":
+                    return SV("sigpow", a.m.pow(2), tag="asreal", src=a.src, axes=a.axes)
                 if a.kind == "sig" and abs(q - 2) < 1e-12:
                     if getattr(self, "complex_input", False):
                         self.definite.append(f"`{unparse(node)[:70]}` squares a complex signal: x**2 is not |x|^2 (E[x^2] vanishes for a circularly symmetric signal), so this is not its power")
@@ -463,10 +465,16 @@ class Scaling(Interp):
             if isinstance(target, SV) and target.kind in ("sig", "out") and len(rest) == 2 and len(node.args) == 2 and unparse(node.args[1]) == "-1":
                 return replace(target, axes="rows")  # (batch, everything else): one row per item
             return target
+        if short == "view_as_real" and target is not None and target.kind == "sig":
+            # the (..., 2) real view of a complex signal: twice as many real entries carrying the same energy
+            return replace(target, tag="asreal")
         if short in ("pow", "square") and target is not None and ((short == "square" and not rest) or (short == "pow" and len(rest) == 1 and not kw)):
             # t.pow(q) / torch.pow(t, q) / t.square(): the ** operator
             expo = ast.Constant(value=2) if short == "square" else (node.args[-1])
-            base_node = node.func.value if isinstance(node.func, ast.Attribute) and not (call_name(node) or "").startswith("torch.") else node.args[0]
+            is_fn_ = isinstance(node.func, ast.Attribute) and isinstance(node.func.value, ast.Name) and node.func.value.id in ("torch", "np")
+            if is_fn_ and not node.args:
+                return unk("pow without operand")
+            base_node = node.args[0] if is_fn_ else node.func.value
             return self.eval(ast.copy_location(ast.BinOp(left=base_node, op=ast.Pow(), right=expo), node), env)
         if short in ("abs", "absolute") and target is not None:
             if target.kind == "sig":
@@ -572,11 +580,14 @@ class Scaling(Interp):
         return unk(f"call {name}")
 
     def reduce(self, which: str, target: SV, rest, kw, kwnodes, node) -> SV:
-        dim_node = kwnodes.get("dim") if "dim" in kwnodes else (node.args[1] if (len(node.args) > 1 and not isinstance(node.func, ast.Attribute)) or (isinstance(node.func, ast.Attribute) and not (call_name(node) or "").startswith("torch.") and node.args) else None)
-        if isinstance(node.func, ast.Attribute) and not (call_name(node) or "").startswith("torch.") and node.args:
-            dim_node = node.args[0]
-        elif "dim" not in kwnodes and len(node.args) > 1 and (call_name(node) or "").startswith("torch."):
-            dim_node = node.args[1]
+        # function form torch.f(t, dim) has the tensor first; the method form t.f(dim) - whatever the receiver expression is - has not
+        fn_form = isinstance(node.func, ast.Attribute) and isinstance(node.func.value, ast.Name) and node.func.value.id in ("torch", "np")
+        if "dim" in kwnodes:
+            dim_node = kwnodes.get("dim")
+        elif fn_form or not isinstance(node.func, ast.Attribute):
+            dim_node = node.args[1] if len(node.args) > 1 else None
+        else:
+            dim_node = node.args[0] if node.args else None
         axes = "all"
         if dim_node is not None:
             txt = unparse(dim_node)
@@ -588,10 +599,16 @@ class Scaling(Interp):
                 axes = "param:dim"
             else:
                 axes = f"other:{txt}"
+        if target.kind == "sigpow" and target.tag == "asreal" and dim_node is not None:
+            if which == "sum" and unparse(dim_node) == "-1":
+                return SV("sigpow", target.m, src=target.src, axes=target.axes)  # re^2 + im^2 = |x|^2 per complex sample
+            return unk(f"{which} over an axis of the real view")
         if target.kind == "sigpow":
             m = target.m * Mono.sym(f"E[{target.src}]")
             if which == "mean":
                 m = m / Mono.sym("N")
+                if target.tag == "asreal":
+                    m = m / Mono.const(2)  # the mean runs over 2 N real entries: half the mean power per complex sample
             return SV("det", m, axes=axes)
         if target.kind == "sigabs":
             m = target.m * Mono.sym(f"A[{target.src}]")
